@@ -39,10 +39,23 @@ TOK = RES
 LLINE = 'Sk.LLine'
 OPTLLINE = 'Option Sk.LLine'   # a LogLine or None
 STATUS = 'Sk.Py.Status'
+NAT = 'Nat'
+VAL = 'Sk.Val'
+OPTVAL = 'Option Sk.Val'
+OPTNAT = 'Option Nat'
+LISTN = 'List Nat'
+OPTLISTN = 'Option (List Nat)'
+DICTNV = 'List (Nat × Sk.Val)'       # a dict index -> value, in insertion order
+DICTVN = 'List (Sk.Val × Nat)'       # a dict value -> index
+BASE_OF = {}                          # optional type -> what it holds (filled below)
 NONE = 'None'                  # the constant None (coerced to the optional type it meets)
 OPTINT = 'Option Int'          # an int or None
 OPTDT = 'Option  Int'          # a datetime (as seconds) or None: every non-None value is truthy
                                # (two blanks: a distinct tag for the translator, same Lean type)
+
+
+BASE_OF.update({'Option Int': INT, 'Option  Int': INT, 'Option Sk.LLine': 'Sk.LLine',
+                'Option Sk.Val': VAL, 'Option Nat': NAT, 'Option (List Nat)': LISTN})
 
 
 class Ctx:
@@ -89,6 +102,8 @@ def expr(cx, e):
         if isinstance(e.value, bool):
             return ('true' if e.value else 'false'), BOOL
         if isinstance(e.value, int):
+            if cx.spec.get('nat'):
+                return (f'({e.value} : Nat)', NAT)
             return (f'({e.value} : Int)', INT)
         if isinstance(e.value, str):
             return '""', STR
@@ -101,6 +116,18 @@ def expr(cx, e):
         if e.id in cx.types:
             return lname(e.id), cx.types[e.id]
         raise Untranslatable(f'unknown name {e.id}')
+    if isinstance(e, ast.Subscript) and not isinstance(e.value, ast.Tuple):
+        t, ty = expr(cx, e.value)
+        if ty == LISTN and unparse(e.slice) == '-1':
+            # IndexError on an empty list is outside the fragment (the bridge assumes blocks
+            # are not empty)
+            return f'(Sk.Py.listLast {t})', NAT
+        if ty == DICTVN:
+            k, tk = expr(cx, e.slice)
+            need(tk, VAL, src)
+            # KeyError is outside the fragment: the code only indexes after a membership test
+            return f'(Sk.Py.dictGetV {t} {k})', NAT
+        raise Untranslatable(f'subscript {src}')
     if isinstance(e, ast.Subscript) and isinstance(e.value, ast.Tuple) and len(e.value.elts) == 2:
         # (a, b)[flag]: False selects a, True selects b
         i, ti = expr(cx, e.slice)
@@ -154,6 +181,15 @@ def expr(cx, e):
     if isinstance(e, ast.BinOp):
         a, ta = expr(cx, e.left)
         b, tb = expr(cx, e.right)
+        if ta == NAT and tb == NAT:
+            op = {ast.Add: '+', ast.Mult: '*', ast.Mod: '%'}.get(type(e.op))
+            if op == '%':
+                # Python raises ZeroDivisionError for % 0; the bridge theorems assume a
+                # non-zero block size
+                return f'({a} % {b})', NAT
+            if op:
+                return f'({a} {op} {b})', NAT
+            raise Untranslatable(f'operator on naturals in {src}')
         need(ta, INT, src)
         need(tb, INT, src)
         op = {ast.Add: '+', ast.Sub: '-', ast.Mult: '*'}.get(type(e.op))
@@ -216,7 +252,21 @@ def prop(cx, e):
                     return f"({a} {'=' if isinstance(op, ast.Is) else '≠'} none)"
                 raise Untranslatable(f'identity test in {src}')
             b, tb = expr(cx, right)
-            if ta != tb or ta not in (INT, BOOL, STATUS):
+            if isinstance(op, (ast.In, ast.NotIn)):
+                if tb == DICTNV and ta == NAT:
+                    t = f'(Sk.Py.dictHas {b} {a} = true)'
+                elif tb == DICTVN and ta == VAL:
+                    t = f'(Sk.Py.dictHasV {b} {a} = true)'
+                else:
+                    raise Untranslatable(f'membership of {ta} in {tb} in {src}')
+                parts.append(t if isinstance(op, ast.In) else f'(¬ {t})')
+                left = right
+                continue
+            if ta == VAL and tb == VAL and isinstance(op, (ast.Eq, ast.NotEq)):
+                parts.append(f"({a} {'=' if isinstance(op, ast.Eq) else '≠'} {b})")
+                left = right
+                continue
+            if ta != tb or ta not in (INT, BOOL, STATUS, NAT):
                 raise Untranslatable(f'comparison of {ta} with {tb} in {src}')
             o = {ast.Lt: '<', ast.LtE: '≤', ast.Gt: '>', ast.GtE: '≥', ast.Eq: '=',
                  ast.NotEq: '≠'}.get(type(op))
@@ -238,6 +288,12 @@ def prop(cx, e):
         return f'({t} ≠ none)'
     if ty == LLINE:
         return f'(Sk.Py.lineLen {t} ≠ 0)'          # LogLine.__len__
+    if ty in (DICTNV, DICTVN, LISTN):
+        return f'({t} ≠ [])'
+    if ty == OPTLISTN:
+        return f'({t} ≠ none ∧ {t} ≠ some [])'
+    if ty == NAT:
+        return f'({t} ≠ 0)'
     if ty == OPTINT:
         return f'({t} ≠ none ∧ {t} ≠ some 0)'
     raise Untranslatable(f'truth value of {ty} in {src}')
@@ -262,6 +318,8 @@ def call(cx, e):
         t, ty = expr(cx, e.args[0])
         if ty == CHUNK:
             return f'({t}.len : Int)', INT
+        if ty in (DICTNV, DICTVN, LISTN):
+            return f'({t}.length)', NAT
         raise Untranslatable(f'len of {ty} in {src}')
     # bytes.find / rfind of the line-feed token on a chunk read from the file
     if isinstance(e.func, ast.Attribute) and e.func.attr in ('find', 'rfind') and len(e.args) == 1:
@@ -310,6 +368,12 @@ def assigned(stmts):
                 nm = target_name(t)
                 if nm not in out:
                     out.append(nm)
+            if isinstance(n, ast.Assign):
+                # the modelled effect of an external call also assigns
+                for sp in FUNCS:
+                    for var, _new in sp.get('effects', {}).get(unparse(n.value), (0, 0, []))[2]:
+                        if var not in out:
+                            out.append(var)
     return out
 
 
@@ -349,6 +413,31 @@ def block(cx, stmts, k, loop=None):
                 return (f'if {t} < 0 then Sk.Py.Res.exc "ValueError" else\n'
                         f'let _pos : Int := {t}\n' + after())
         raise Untranslatable(f'statement {unparse(s)}')
+    if isinstance(s, ast.Assign) and len(s.targets) == 1 and \
+            isinstance(s.targets[0], ast.Subscript):
+        # d[k] = v on a dict local
+        tg = s.targets[0]
+        d, td = expr(cx, tg.value)
+        kx, tk = expr(cx, tg.slice)
+        v, tv = expr(cx, s.value)
+        dn = target_name(tg.value)
+        if (td, tk, tv) == (DICTNV, NAT, VAL):
+            return f'let {lname(dn)} : {td} := Sk.Py.dictSet {d} {kx} {v}\n' + after()
+        if (td, tk, tv) == (DICTVN, VAL, NAT):
+            return f'let {lname(dn)} : {td} := Sk.Py.dictSetV {d} {kx} {v}\n' + after()
+        raise Untranslatable(f'statement {unparse(s)}')
+    if isinstance(s, ast.Assign) and unparse(s.value) in cx.spec.get('effects', {}):
+        # a call of an external function with a modelled effect (the pre-allocator)
+        val_t, val_ty, updates = cx.spec['effects'][unparse(s.value)]
+        nm = target_name(s.targets[0])
+        want = dict(cx.spec['params']).get(nm)
+        if want in BASE_OF and BASE_OF[want] == val_ty:
+            val_t, val_ty = f'(some {val_t})', want
+        cx.define(nm, val_ty)
+        out = f'let {lname(nm)} : {val_ty} := {val_t}\n'
+        for var, new in updates:
+            out += f'let {lname(var)} : {cx.types[var]} := {new}\n'
+        return out + after()
     if isinstance(s, (ast.Assign, ast.AugAssign)):
         if isinstance(s, ast.Assign):
             if len(s.targets) != 1:
@@ -399,8 +488,10 @@ def block(cx, stmts, k, loop=None):
         t, ty = expr(cx, s.value)
         if cx.ret == OPTLLINE and ty == LLINE:
             t, ty = f'(some {t})', OPTLLINE
-        if cx.ret in (OPTLLINE, OPTINT, OPTDT) and ty == NONE:
+        if cx.ret in BASE_OF and ty == NONE:
             ty = cx.ret
+        if cx.ret in BASE_OF and ty == BASE_OF[cx.ret] and cx.ret not in (OPTINT, OPTDT):
+            t, ty = f'(some {t})', cx.ret
         if ty != cx.ret:
             raise Untranslatable(f'return of {ty} where {cx.ret} is declared: {unparse(s)}')
         st = cx.spec.get('state_out')
@@ -438,12 +529,13 @@ def block(cx, stmts, k, loop=None):
             body_none, body_some = (s.body, s.orelse) if none_branch_is_body else (s.orelse, s.body)
             t_none = block(cx, body_none, after, loop)
             cx.types, cx.order = dict(saved_t), list(saved_o)
-            cx.types[nm] = INT
+            base = BASE_OF.get(saved_t[nm], INT)
+            cx.types[nm] = base
             t_some = block(cx, body_some, after, loop)
             if zero_is_falsy:
                 # truthiness of an int-or-None: 0 goes with None
                 cx.types, cx.order = dict(saved_t), list(saved_o)
-                cx.types[nm] = INT
+                cx.types[nm] = base
                 t_zero = block(cx, body_none, after, loop)
                 t_some = f'if {lname(nm)} = 0 then\n{ind(t_zero)}\nelse\n{ind(t_some)}'
             cx.types, cx.order = saved_t, saved_o
@@ -473,6 +565,18 @@ def block(cx, stmts, k, loop=None):
                     te = block(cx, s.orelse, lambda n=n: lname(n) if n in cx.types else '?')
                     ty_e = cx.types.get(n)
                     cx.types, cx.order = saved_t, saved_o
+                    if ty_b is not None and ty_e is not None and ty_b != ty_e:
+                        # one branch holds the value, the other the optional: lift the value
+                        if BASE_OF.get(ty_b) == ty_e:
+                            cx.types, cx.order = dict(saved_t), list(saved_o)
+                            te = block(cx, s.orelse, lambda n=n: f'(some {lname(n)})')
+                            cx.types, cx.order = saved_t, saved_o
+                            ty_e = ty_b
+                        elif BASE_OF.get(ty_e) == ty_b:
+                            cx.types, cx.order = dict(saved_t), list(saved_o)
+                            tb = block(cx, s.body, lambda n=n: f'(some {lname(n)})')
+                            cx.types, cx.order = saved_t, saved_o
+                            ty_b = ty_e
                     if ty_b != ty_e or ty_b is None:
                         raise Untranslatable(f'{n} has different types in the branches of '
                                              f'{unparse(s.test)}')
@@ -492,6 +596,72 @@ def block(cx, stmts, k, loop=None):
         te = block(cx, s.orelse, after, loop)
         cx.types, cx.order = saved_t, saved_o
         return f'if {c} then\n{ind(tb)}\nelse\n{ind(te)}'
+    if isinstance(s, ast.For) and not (isinstance(s.iter, ast.Call) and
+                                       unparse(s.iter.func) == 'range'):
+        # for x in <list> / for k, v in <dict>.items(): structural recursion over the list
+        it = s.iter
+        if callee_of(cx, it) is not None:
+            tmp = '_l%d' % (len(cx.order) + 1)
+            return call_bind(cx, tmp, it, lambda: block(
+                cx, [ast.For(target=s.target, iter=ast.Name(id=tmp, ctx=ast.Load()),
+                             body=s.body, orelse=s.orelse)] + rest, k, loop))
+        pair = False
+        if isinstance(it, ast.Call) and isinstance(it.func, ast.Attribute) and \
+                it.func.attr == 'items' and not it.args:
+            lst, tl = expr(cx, it.func.value)
+            pair = True
+        else:
+            lst, tl = expr(cx, it)
+        if tl == OPTLISTN:
+            # iterating None raises TypeError
+            nm_ = it.id if isinstance(it, ast.Name) else None
+            if nm_ is None:
+                raise Untranslatable(f'statement {unparse(s)}')
+            saved = dict(cx.types), list(cx.order)
+            cx.types[nm_] = LISTN
+            inner = block(cx, [s] + rest, k, loop)
+            cx.types, cx.order = saved
+            return (f'match {lname(nm_)} with\n| none => Sk.Py.Res.exc "TypeError"\n'
+                    f'| some {lname(nm_)} =>\n{ind(inner)}')
+        if pair:
+            if tl != DICTNV or not (isinstance(s.target, ast.Tuple) and len(s.target.elts) == 2
+                                    and all(isinstance(x, ast.Name) for x in s.target.elts)):
+                raise Untranslatable(f'statement {unparse(s)}')
+            names, tys, elt = [x.id for x in s.target.elts], [NAT, VAL], 'Nat × Sk.Val'
+        else:
+            if tl != LISTN or not isinstance(s.target, ast.Name):
+                raise Untranslatable(f'statement {unparse(s)}')
+            names, tys, elt = [s.target.id], [NAT], 'Nat'
+        cx.nloops += 1
+        name = f"{cx.spec['name']}.loop{cx.nloops}"
+        vars_ = cx.defined()
+        sig = ' '.join(f'({lname(v)} : {cx.types[v]})' for v in vars_)
+        entry_types, entry_order = dict(cx.types), list(cx.order)
+
+        def recur():
+            for v in vars_:
+                if cx.types.get(v) != entry_types[v]:
+                    raise Untranslatable(f'{v} changes type inside a loop')
+            return f"{name} {cx.spec['ctx_args']} {' '.join(lname(v) for v in vars_)} _rest".replace('  ', ' ')
+
+        def leave():
+            saved = dict(cx.types), list(cx.order)
+            out = block(cx, rest, k, loop)
+            cx.types, cx.order = saved
+            return out
+        for n_, t_ in zip(names, tys):
+            cx.define(n_, t_)
+        body = block(cx, s.body, recur, (recur, leave))
+        cx.types, cx.order = dict(entry_types), list(entry_order)
+        done = block(cx, list(s.orelse) + rest, k, loop)
+        cx.types, cx.order = dict(entry_types), list(entry_order)
+        pat = f"({', '.join(lname(n_) for n_ in names)})" if pair else lname(names[0])
+        cx.aux.append(
+            f"def {name} {cx.spec['ctx']} {sig} : List ({elt}) → Sk.Py.Res ({lean_ret(cx)})\n"
+            f"  | [] =>\n{ind(done, 4)}\n"
+            f"  | {pat} :: _rest =>\n{ind(body, 4)}\n")
+        return (f"{name} {cx.spec['ctx_args']} {' '.join(lname(v) for v in vars_)} {lst}"
+                .replace('  ', ' '))
     if isinstance(s, ast.For):
         # for x in range(...): a while loop over a hidden counter (incremented BEFORE the body so
         # that `continue` advances it); the bound is evaluated once
@@ -553,8 +723,9 @@ def block(cx, stmts, k, loop=None):
             return f"{name} {cx.spec['ctx_args']} {' '.join(args)} fuel".replace('  ', ' ')
 
         def leave():
+            # `break`: what follows the loop is inlined at the break site, where everything
+            # assigned so far in the body is in scope
             saved = dict(cx.types), list(cx.order)
-            cx.types, cx.order = dict(entry_types), list(entry_order)
             out = block(cx, rest, k, loop)
             cx.types, cx.order = saved
             return out
@@ -713,7 +884,7 @@ def optional_test(cx, test):
     if isinstance(t, ast.Name) and cx.types.get(t.id) in (OPTINT, OPTDT):
         return t.id, neg, cx.types[t.id] == OPTINT
     if isinstance(t, ast.Compare) and len(t.ops) == 1 and isinstance(t.left, ast.Name) and \
-            cx.types.get(t.left.id) in (OPTINT, OPTDT) and \
+            cx.types.get(t.left.id) in (OPTINT, OPTDT, OPTVAL, OPTNAT, OPTLISTN) and \
             isinstance(t.comparators[0], ast.Constant) and t.comparators[0].value is None and \
             isinstance(t.ops[0], (ast.Is, ast.IsNot)):
         is_none = isinstance(t.ops[0], ast.Is)
@@ -724,6 +895,8 @@ def optional_test(cx, test):
 def callee_of(cx, e):
     if isinstance(e, ast.Call):
         return cx.spec.get('callees', {}).get(unparse(e.func))
+    if isinstance(e, ast.Attribute):
+        return cx.spec.get('prop_callees', {}).get(unparse(e))      # a property with effects
     return None
 
 
@@ -733,21 +906,31 @@ def call_bind(cx, nm, e, cont):
     call is unknown: a read without a new seek is outside the fragment. """
     cal = callee_of(cx, e)
     spec2 = next(sp for sp in FUNCS if sp['name'] == cal)
-    if e.keywords:
+    call_args = e.args if isinstance(e, ast.Call) else []
+    if isinstance(e, ast.Call) and e.keywords:
         raise Untranslatable(f'keyword arguments in {unparse(e)}')
-    want = [p for p in spec2['params'] if p[0] != '_pos']
-    if len(e.args) != len(want):
+    state2 = spec2.get('state_out') or []
+    want = [p for p in spec2['params'] if p[0] != '_pos' and not p[0].startswith('self_')]
+    if len(call_args) != len(want):
         raise Untranslatable(f'{unparse(e)}: {len(want)} arguments expected')
     args = []
-    for a, (pn, pt) in zip(e.args, want):
+    for a, (pn, pt) in zip(call_args, want):
         t, ty = expr(cx, a)
         if ty == INT and pt in (OPTINT, OPTDT):
             t = f'(some {t})'
         elif ty == NONE and pt in (OPTINT, OPTDT, OPTLLINE):
             t = 'none'
+        elif ty == VAL and pt == OPTVAL:
+            t = f'(some {t})'
         elif ty != pt:
             raise Untranslatable(f'{unparse(e)}: argument {pn} is {ty}, {pt} expected')
         args.append(t)
+    for v, _t in spec2['params']:
+        # the callee works on the caller's object state
+        if v.startswith('self_'):
+            if v not in cx.types:
+                raise Untranslatable(f'{unparse(e)}: the caller has no {v}')
+            args.append(lname(v))
     if any(p[0] == '_pos' for p in spec2['params']):
         args.append(lname('_pos') if '_pos' in cx.types else '(0 : Int)')
         cx.types.pop('_pos', None)
@@ -759,8 +942,9 @@ def call_bind(cx, nm, e, cont):
         args.append('fuel')
     cx.define(nm, spec2['ret'])
     body = cont()
+    pat = lname(nm) if not state2 else '(' + ', '.join([lname(nm)] + [lname(v) for v in state2]) + ')'
     return (f"match {cal} {spec2['ctx_args']} {' '.join(args)} with\n".replace('  ', ' ') +
-            f"| Sk.Py.Res.ret {lname(nm)} =>\n{ind(body)}\n"
+            f"| Sk.Py.Res.ret {pat} =>\n{ind(body)}\n"
             f"| Sk.Py.Res.exc _n => Sk.Py.Res.exc _n\n"
             f"| Sk.Py.Res.diverge => Sk.Py.Res.diverge")
 
@@ -840,6 +1024,11 @@ SEEK_CONSTS = {
     'FindTokenStatus.REACHED_EOF': ('Sk.Py.Status.eof', STATUS),
 }
 
+STORE_CTX = '(pre : Bool) (B : Nat) (alloc : Nat → List Nat)'
+STORE_CONSTS = {'self.f_preallocator': ('pre', BOOL), 'self.prealloc_block_size': ('B', NAT)}
+STORE_EFFECTS = {'self.f_preallocator(self.prealloc_block_size)':
+                 ('(alloc self_nblocks)', LISTN, [('self_nblocks', '(self_nblocks + 1)')])}
+
 FUNCS = [
     dict(name='find_token_reverse', file='constraints.py', cls='LogFileDateSinceSeeker',
          func='find_token_reverse', params=[('start_offset', INT), ('_pos', INT)], ret=RES, lean_ret='Sk.Tok',
@@ -907,6 +1096,33 @@ FUNCS = [
                  'self.extracted_datetime(line)': ('ts', OPTDT)},
          callees={'self._line_date_is_valid': 'line_date_is_valid'},
          state_out=['self__line_pass', 'self__line_fail'], py_args=['line'], fuel=False),
+    # --- the de-duplicating store (results_store.py): dicts are association lists in insertion
+    # order, the pre-allocator is the oracle `alloc` (k-th block it hands out) with a counter
+    dict(name='allocations', file='results_store.py', cls='ResultStoreBase', func='allocations',
+         params=[('self_data', DICTNV), ('self__allocations', OPTLISTN), ('self_nblocks', NAT)],
+         ret=OPTLISTN, lean_ret='Option (List Nat) × Option (List Nat) × Nat',
+         ctx=STORE_CTX, ctx_args='pre B alloc', consts=STORE_CONSTS, effects=STORE_EFFECTS,
+         state_out=['self__allocations', 'self_nblocks'], py_args=[], collections=True,
+         nat=True, fuel=False),
+    dict(name='allocate_next', file='results_store.py', cls='ResultStoreBase',
+         func='_allocate_next',
+         params=[('value', VAL), ('self_data', DICTNV), ('self__allocations', OPTLISTN),
+                 ('self_nblocks', NAT)],
+         ret=NAT, lean_ret='Nat × List (Nat × Sk.Val) × Option (List Nat) × Nat',
+         ctx=STORE_CTX, ctx_args='pre B alloc', consts=STORE_CONSTS,
+         prop_callees={'self.allocations': 'allocations'},
+         state_out=['self_data', 'self__allocations', 'self_nblocks'], collections=True,
+         nat=True, fuel=False),
+    dict(name='add_to_store', file='results_store.py', cls='ResultStoreBase',
+         func='_add_to_store',
+         params=[('value', OPTVAL), ('store', DICTVN), ('idx', OPTNAT), ('self_data', DICTNV),
+                 ('self__allocations', OPTLISTN), ('self_nblocks', NAT)],
+         ret=OPTNAT,
+         lean_ret='Option Nat × List (Sk.Val × Nat) × List (Nat × Sk.Val) × Option (List Nat) × Nat',
+         ctx=STORE_CTX, ctx_args='pre B alloc', consts=STORE_CONSTS,
+         callees={'self._allocate_next': 'allocate_next'},
+         state_out=['store', 'self_data', 'self__allocations', 'self_nblocks'],
+         collections=True, nat=True, fuel=False),
     # the part of SearchConstraintSearchSince.__init__ that fixes the window, followed by
     # since_date: what is subtracted from current_date, in seconds
     dict(name='since_window', file='constraints.py', cls='SearchConstraintSearchSince',
@@ -970,6 +1186,17 @@ def translate_one(repo, spec):
                 not isinstance(b2[0].value, ast.BinOp) or not isinstance(b2[0].value.op, ast.Sub):
             raise Untranslatable(f"{th['func']} is not `return self.current_date - <window>`")
         body = body + [ast.Return(value=b2[0].value.right)]
+    declared = {pn for pn, _ in spec['params'] if pn.startswith('self_')}
+
+    class _SelfAttrs(ast.NodeTransformer):
+        def visit_Attribute(self, node):
+            self.generic_visit(node)
+            if isinstance(node.value, ast.Name) and node.value.id == 'self' and \
+                    'self_' + node.attr in declared:
+                return ast.copy_location(ast.Name(id='self_' + node.attr, ctx=node.ctx), node)
+            return node
+    if spec.get('collections'):
+        body = [ast.fix_missing_locations(_SelfAttrs().visit(b)) for b in body]
     drop = cx.spec.get('drop_calls', ('log.debug', 'log.info', 'log.warning'))
     loaded, stored = set(), set()
 
